@@ -7,6 +7,8 @@ TECH = "function contracts + weakest-precondition VCs over go/ssa, discharged by
 claimed = {
  "C01": ("proof", "admission rule of doLock proved for all inputs (every uint32/uint16 value, any heap): a granted request sees locked <= its Count and <= the oldest holder's Count; the Count==0xffff 'unlimited' class is a recorded known finding",
          "contracts on doLock only so far; grant sites and the monitor invariant (locked == sum of depths) not yet under contract; key table and PriorityMutex trusted", "4/C01"),
+ "C14": ("proof", "for all field values / all 64-byte inputs: Decode(Encode(x)) == x and Encode(Decode(b)) == b on every defined byte for all 20 command/result types (real Encode/Decode bodies composed by harness functions), and the LOCK/UNLOCK request and response frames match the README offsets byte for byte",
+         "string fields (CALL method name, error type, leader host) are excluded from the value round trip (strings.Trim not modelled); server-side hand-inlined codecs, text parser chunk independence and text<->binary equivalence not yet under contract", "4/C14"),
  "C12": ("proof", "CompareAofId equals the specified log-position order (index with wrap-around, then offset, then command time) for all 2^256 input pairs",
          "only the comparison kernel so far; proposal/commit handlers, vote choice and restart durability not yet under contract; transport outside", "4/C12"),
 }
